@@ -30,7 +30,10 @@ def round (p q : Rat) (c : Int) : Int := roundEven (val p c / q)
     periods are integer multiples, `gcd(p.num, q.num) / lcm(p.den, q.den)` -/
 def commonPeriod (p q : Rat) : Rat := (Int.gcd p.num q.num : Int) / (Nat.lcm p.den q.den : Int)
 
-/-- the tick count of the value `x` in the period `cp` (exact for the values that occur: see `…_exact`) -/
+/-- the tick count of the value `x` in the period `cp` (exact for the values that occur: see `…_exact`).
+    `inPeriod` is total (it would floor a non-multiple of `cp`); it is used by the driver for the R2 comparison with
+    libstdc++ only - the theorems `add_exact`, `sub_exact`, `mod_exact`, … do not go through it: they state
+    `result * cp = value` directly, so nothing is proved "because of the floor". -/
 def inPeriod (cp x : Rat) : Int := (x / cp).floor
 
 def add (p q : Rat) (a b : Int) : Int := inPeriod (commonPeriod p q) (val p a + val q b)
